@@ -121,6 +121,13 @@ func (fc *FnCtx) monitorEnv(st *State, mi *monInfo) *SpecEnv {
 
 // acquire: havoc the guarded state of this object and assume the monitor invariant.
 func (fc *FnCtx) acquire(st *State, mi *monInfo) {
+	fc.acquireHavoc(st, mi, true)
+}
+
+// acquireHavoc: what other goroutines may have changed while the monitor's mutex was not held (guarded fields, the
+// condition variables' ghost counters, the monitor's havoc list). With assumeInv the monitor invariant is assumed for
+// the new state (right after Lock / Wait's re-acquisition); without it only the havoc is performed (loop heads).
+func (fc *FnCtx) acquireHavoc(st *State, mi *monInfo, assumeInv bool) {
 	if mi == nil {
 		return
 	}
@@ -154,6 +161,9 @@ func (fc *FnCtx) acquire(st *State, mi *monInfo) {
 			for _, r := range fc.regionsOf(c, env) {
 				fc.havocRegion(st, r)
 			}
+		}
+		if !assumeInv {
+			return
 		}
 		env = fc.monitorEnv(st, mi)
 		for _, inv := range mi.mon.Inv {
@@ -630,6 +640,44 @@ func (fc *FnCtx) condOwner(st *State, recv *Val, call *ast.CallExpr) (*monInfo, 
 		return mi, c
 	}
 	return nil, CondDecl{}
+}
+
+// condOwnerQuiet: like condOwner, for the loop-head havoc (no obligation is generated).
+func (fc *FnCtx) condOwnerQuiet(st *State) *monInfo {
+	sig := fc.fn.Type().(*types.Signature)
+	r := sig.Recv()
+	if r == nil {
+		return nil
+	}
+	base, ok := st.vars[r]
+	if !ok {
+		return nil
+	}
+	sT, owner, isPtr := structOf(base.Ty)
+	if sT == nil || !isPtr {
+		return nil
+	}
+	n, ok := owner.(*types.Named)
+	if !ok {
+		return nil
+	}
+	cs := fc.eng.contractsForPkg(n.Obj().Pkg())
+	if cs == nil {
+		return nil
+	}
+	for _, c := range cs.Conds {
+		if c.Type != n.Obj().Name() {
+			continue
+		}
+		mi := &monInfo{owner: owner, field: c.MuField, base: base, cs: cs}
+		for _, m := range cs.Monitors {
+			if m.Type == c.Type && m.MuField == c.MuField {
+				mi.mon = m
+			}
+		}
+		return mi
+	}
+	return nil
 }
 
 // ghostUpdatesAtRelease performs the contract's `atrelease g = e` ghost assignments (simultaneously).
